@@ -1,8 +1,112 @@
-import DendroModel.Basic.Tree
-open DendroModel
+import DendroModel.Model.C10
+open DendroModel DendroModel.C10
+
+/-! line protocol of C10.
+`hist op ; op ; …`  → per op `ret # dump`, joined by ` | `; `dump` = every namespace of the world after the op.
+`lower <hex>`       → hex of `pyLower`
+`esc ps qu <hex>`   → hex of `escapeToken` -/
+
+def pBool (s : String) : Option Bool := if s == "1" then some true else if s == "0" then some false else none
+def pCase (s : String) : Option (Option Bool) :=
+  if s == "N" then some none else if s == "T" then some (some true) else if s == "F" then some (some false) else none
+def pStr (s : String) : Option String := match decodeStr s with | some (some x) => some x | _ => none
+def pItem (s : String) : Option Item :=
+  match s.toList with
+  | 'T' :: r => (String.ofList r).toNat?.map Item.tax
+  | 'L' :: r => (pStr (String.ofList r)).map Item.lab
+  | _ => none
+
+def parseOp (ws : List String) : Option Op :=
+  match ws with
+  | ["mk", l] => (pStr l).map Op.mk
+  | "mkns" :: b :: items => do let b ← pBool b; let is ← items.mapM pItem; pure (Op.mkns b is)
+  | ["add", n, t] => do pure (Op.add (← n.toNat?) (← t.toNat?))
+  | "addtaxa" :: n :: ts => do pure (Op.addTaxa (← n.toNat?) (← ts.mapM String.toNat?))
+  | ["new", n, l] => do pure (Op.new (← n.toNat?) (← pStr l))
+  | "newtaxa" :: n :: ls => do pure (Op.newTaxa (← n.toNat?) (← ls.mapM pStr))
+  | ["req", n, c, l] => do pure (Op.req (← n.toNat?) (← pCase c) (← pStr l))
+  | ["rm", n, t] => do pure (Op.rm (← n.toNat?) (← t.toNat?))
+  | ["del", n, i] => do pure (Op.del (← n.toNat?) (← i.toNat?))
+  | ["rml", n, c, l] => do pure (Op.rml (← n.toNat?) (← pCase c) (← pStr l))
+  | ["dl", n, c, l] => do pure (Op.dl (← n.toNat?) (← pCase c) (← pStr l))
+  | ["sort", n, b] => do pure (Op.sort (← n.toNat?) (← pBool b))
+  | ["rev", n] => do pure (Op.rev (← n.toNat?))
+  | ["clear", n] => do pure (Op.clear (← n.toNat?))
+  | ["relabel", t, l] => do pure (Op.relabel (← t.toNat?) (← pStr l))
+  | ["copy", n] => do pure (Op.copy (← n.toNat?))
+  | ["deep", n] => do pure (Op.deep (← n.toNat?))
+  | ["setmut", n, b] => do pure (Op.setMut (← n.toNat?) (← pBool b))
+  | ["setcs", n, b] => do pure (Op.setCs (← n.toNat?) (← pBool b))
+  | ["get", n, c, l] => do pure (Op.get (← n.toNat?) (← pCase c) (← pStr l))
+  | ["find", n, c, l] => do pure (Op.find (← n.toNat?) (← pCase c) (← pStr l))
+  | "gets" :: n :: c :: b :: ls => do pure (Op.gets (← n.toNat?) (← pCase c) (← pBool b) (← ls.mapM pStr))
+  | ["has", n, c, l] => do pure (Op.has (← n.toNat?) (← pCase c) (← pStr l))
+  | "hasall" :: n :: c :: ls => do pure (Op.hasAll (← n.toNat?) (← pCase c) (← ls.mapM pStr))
+  | ["bm", n, t] => do pure (Op.bm (← n.toNat?) (← t.toNat?))
+  | ["acc", n, t] => do pure (Op.acc (← n.toNat?) (← t.toNat?))
+  | "tbm" :: n :: ts => do pure (Op.tbm (← n.toNat?) (← ts.mapM String.toNat?))
+  | "lbm" :: n :: c :: ls => do pure (Op.lbm (← n.toNat?) (← pCase c) (← ls.mapM pStr))
+  | ["all", n] => do pure (Op.all (← n.toNat?))
+  | ["btl", n, m] => do pure (Op.btl (← n.toNat?) (← m.toNat?))
+  | ["nwk", n, m, ps, qu] => do pure (Op.nwk (← n.toNat?) (← m.toNat?) (← pBool ps) (← pBool qu))
+  | ["bits", n, m] => do pure (Op.bits (← n.toNat?) (← m.toNat?))
+  | ["in", n, t] => do pure (Op.isIn (← n.toNat?) (← t.toNat?))
+  | _ => none
+
+/-- split the token list at the `;` tokens -/
+def splitOps : List String → List (List String)
+  | [] => [[]]
+  | t :: ts =>
+    match splitOps ts with
+    | [] => [[t]]
+    | g :: gs => if t == ";" then [] :: g :: gs else (t :: g) :: gs
+
+def commaNats (l : List Nat) : String := ",".intercalate (l.map toString)
+
+def showErr : Err → String
+  | .immutable => "Immutable" | .valueError => "ValueError" | .lookupError => "LookupError"
+  | .keyError => "KeyError" | .indexError => "IndexError"
+
+def showOut : Out → String
+  | .ok => "ok"
+  | .err e => showErr e
+  | .id t => s!"t{t}"
+  | .ids l => "ids:" ++ commaNats l
+  | .optId (some t) => s!"t{t}"
+  | .optId none => "None"
+  | .bool true => "True"
+  | .bool false => "False"
+  | .nat n => s!"n{n}"
+  | .str s => "s" ++ encodeStr (some s)
+  | .bad => "bad-op"
+
+def dumpNs (w : World) (s : NS) : String :=
+  "m" ++ (if s.mutable_ then "1" else "0") ++ "c" ++ (if s.caseSens then "1" else "0") ++ "a" ++ toString s.allMask ++ ":"
+    ++ ",".intercalate (s.taxa.map fun t =>
+        toString t ++ "." ++ (match s.t2a.get t with | some i => toString i | none => "?") ++ "." ++ encodeStr (some (w.lab t)))
+
+def dump (w : World) : String := "/".intercalate (w.nss.map (dumpNs w))
+
+def runHist (w : World) : List (List String) → List String → Option (List String)
+  | [], acc => some acc.reverse
+  | g :: gs, acc => match parseOp g with
+    | none => none
+    | some op =>
+      let (w', o) := step w op
+      runHist w' gs ((showOut o ++ " # " ++ dump w') :: acc)
 
 def handle (ws : List String) : String :=
   match ws with
+  | "hist" :: rest =>
+    match runHist World.init (splitOps rest) [] with
+    | some outs => " | ".intercalate outs
+    | none => "bad-op"
+  | ["lower", h] => match pStr h with
+    | some s => encodeStr (some (pyLower s))
+    | none => "bad-op"
+  | ["esc", ps, qu, h] => match pBool ps, pBool qu, pStr h with
+    | some ps, some qu, some s => encodeStr (some (escapeToken ps qu s))
+    | _, _, _ => "bad-op"
   | _ => "bad-op"
 
 def main : IO Unit := do driverLoop (← IO.getStdin) handle
